@@ -111,8 +111,8 @@ class C06(Prop):
         "follow-up requests ask for the last accepted OID, walk ends within the universe size. non-trivial = at least one hostile feature "
         "(out-of-subtree, non-increasing, exception/NULL, empty reply) was consumed; distinct = abstract trace + reply shapes"
     )
-    quick_runs = 4000
-    thorough_runs = 80000
+    quick_runs = 40000
+    thorough_runs = 600000
 
     def families(self, tier):
         return [("getnext", 3), ("getbulk", 4), ("fetch", 1)]
@@ -162,6 +162,8 @@ class C06(Prop):
 
     def check(self, run):
         out = []
+        if not run.results:
+            return out
         res = run.results[0]
         op = res["op"]
         base = ber.parse_oid_text(op["oid"])
